@@ -13,7 +13,7 @@ use std::time::{Duration, Instant};
 
 pub static PROP: Prop = Prop {
     id: "C13",
-    rule: "cases, each in a fresh child process (so that first use is really first use): (i) held initialisation: thread A makes the process's first engine call (parse, execute, or a register_* of a fresh or a built-in name); the init probe parks A after registration stage s in {1,2,3} (only prefix operators / prefix+infix / all operators but no functions registered); 1-14 threads B then make their first calls (programs that need the missing tables: 1+2, 2 ++, min(1,2), not true, 1 in [1], - 1; registrations of fresh names and overrides of built-ins min, +, -, ++); after a grace period the harness records which B returned while A was still parked, releases A and joins everything under a watchdog; (ii) free races: 2-16 threads released by one barrier, all making first calls (programs, registrations, and programs nested 120 and 150 levels deep); (iii) registration vs evaluation: thread R re-registers name N (function / prefix / infix / postfix) alternately with handlers h1 and h2 2000-20000 times while 2-8 threads evaluate texts that use N once, twice, or once after `n += 1` on a fresh context with n = 0 (the result must show n = 1: one evaluation, one handler); after the race every evaluator evaluates once more and must see the handler registered last; a directed variant in which the first invocation of h1 parks until R has registered h2; and a precedence variant in which `hi` alternates between precedence 105 and 125 while the other threads parse `1 + 2 hi 3 * 4 hi 5 + 6` (every tree must be one of the two sequential ones). (iv) fresh-word races: one thread registers 30000 fresh word operators vh_w0, vh_w1 ... (prefix, infix or postfix) one after the other while 1-3 threads are already evaluating programs that spell the word being registered; an evaluation that starts after register_* has returned must read the operator, and afterwards every word is an operator. Oracle: no panic on any thread, all threads joined within the watchdog, every result is one that some sequential order of the calls produces (fixed reference value, or - when an override of the name involved is registered concurrently - the built-in or the override result; for N: every use inside one evaluation shows the same handler, h1 or h2, never an error or another shape), a B thread that returned while A was parked must be correct, and after the join every registration made is in effect (final battery). Non-trivial: (i) at least one B needed a table that was missing while A was parked, (ii) >= 2 different call kinds raced, (iii) an evaluator thread observed both handlers; distinct by (mode, A kind, stage, B kinds / thread count / registry kind and text).",
+    rule: "cases, each in a fresh child process (so that first use is really first use): (i) held initialisation: thread A makes the process's first engine call (parse, execute, or a register_* of a fresh or a built-in name); the init probe parks A after registration stage s in {1,2,3} (only prefix operators / prefix+infix / all operators but no functions registered); 1-14 threads B then make their first calls (programs that need the missing tables: 1+2, 2 ++, min(1,2), not true, 1 in [1], - 1; registrations of fresh names and overrides of built-ins min, +, -, ++); after a grace period the harness records which B returned while A was still parked, releases A and joins everything under a watchdog; (ii) free races: 2-16 threads released by one barrier, all making first calls (programs, registrations, and programs nested 120 and 150 levels deep); (iii) registration vs evaluation: thread R re-registers name N (function / prefix / infix / postfix) alternately with handlers h1 and h2 2000-20000 times while 2-8 threads evaluate texts that use N once, twice, in a malformed way (an operator without its operand: must be rejected at every moment), or once after `n += 1` on a fresh context with n = 0 (the result must show n = 1: one evaluation, one handler); after the race every evaluator evaluates once more and must see the handler registered last; a directed variant in which the first invocation of h1 parks until R has registered h2; and a precedence variant in which `hi` alternates between precedence 105 and 125 while the other threads parse `1 + 2 hi 3 * 4 hi 5 + 6` (every tree must be one of the two sequential ones). (v) registration storms: 2, 4 and 8 threads released by one barrier each register fresh names of one kind (infix, postfix, prefix, function) 20000 times while another thread keeps evaluating a built-in program: all return within the watchdog, the evaluations keep their value, every registration is in effect; (iv) fresh-word races: one thread registers 30000 fresh word operators vh_w0, vh_w1 ... (prefix, infix or postfix) one after the other while 1-3 threads are already evaluating programs that spell the word being registered; an evaluation that starts after register_* has returned must read the operator, and afterwards every word is an operator. Oracle: no panic on any thread, all threads joined within the watchdog, every result is one that some sequential order of the calls produces (fixed reference value, or - when an override of the name involved is registered concurrently - the built-in or the override result; for N: every use inside one evaluation shows the same handler, h1 or h2, never an error or another shape), a B thread that returned while A was parked must be correct, and after the join every registration made is in effect (final battery). Non-trivial: (i) at least one B needed a table that was missing while A was parked, (ii) >= 2 different call kinds raced, (iii) an evaluator thread observed both handlers; distinct by (mode, A kind, stage, B kinds / thread count / registry kind and text).",
     assumptions: &[
         "the harness owns only the interleavings it can force (parking A between init stages through the cfg-guarded probe; parking a handler); other interleavings are sampled by free-running repetition",
         "watchdog: 10 s against milliseconds; an expiry must reproduce on two more runs to count as a deadlock",
@@ -264,13 +264,15 @@ fn reg_n(kind: &str, id: i64, park: Option<Arc<(Mutex<u8>, Condvar)>>) {
     }
 }
 
-pub fn texts_for(kind: &str) -> [&'static str; 3] {
-    // the third text is not idempotent on its (fresh) context: replaying it would show
+pub fn texts_for(kind: &str) -> [&'static str; 4] {
+    // the third text is not idempotent on its (fresh) context: replaying it would show;
+    // the fourth is malformed as long as `hi` is the operator it is registered as (an operator
+    // without its operand) and must be rejected at every moment of the race
     match kind {
-        "function" => ["hi(1)", "[hi(1) , hi(2)]", "n += 1 ; hi(n)"],
-        "prefix" => ["hi 1", "[hi 1 , hi 2]", "n += 1 ; hi n"],
-        "infix" => ["1 hi 2", "[1 hi 2 , 3 hi 4]", "n += 1 ; n hi 2"],
-        _ => ["1 hi", "[1 hi , 2 hi]", "n += 1 ; n hi"],
+        "function" => ["hi(1)", "[hi(1) , hi(2)]", "n += 1 ; hi(n)", "hi(1"],
+        "prefix" => ["hi 1", "[hi 1 , hi 2]", "n += 1 ; hi n", "hi"],
+        "infix" => ["1 hi 2", "[1 hi 2 , 3 hi 4]", "n += 1 ; n hi 2", "1 hi"],
+        _ => ["1 hi", "[1 hi , 2 hi]", "n += 1 ; n hi", "hi 1"],
     }
 }
 
@@ -278,7 +280,7 @@ fn worker_regrace(doc: &J) -> J {
     let kind = doc["kind"].as_str().unwrap_or("infix").to_string();
     let iters = doc["iters"].as_u64().unwrap_or(2000);
     let nthreads = doc["threads"].as_u64().unwrap_or(4) as usize;
-    let which = doc["text"].as_u64().unwrap_or(0) as usize % 3;
+    let which = doc["text"].as_u64().unwrap_or(0) as usize % 4;
     let text = texts_for(&kind)[which].to_string();
     if doc["directed"].as_bool() == Some(true) {
         let park = Arc::new((Mutex::new(0u8), Condvar::new()));
@@ -386,6 +388,71 @@ fn worker_prec_race(iters: u64, nthreads: usize) -> J {
     json!({"per_thread": per_thread, "text": PREC_TEXT, "kind": "infix-precedence", "evaluations": count.load(Ordering::Relaxed)})
 }
 
+/// many threads register fresh names of all four kinds at the same time, thousands of times each,
+/// while one more thread keeps evaluating: everything returns, every registration is in effect
+fn worker_regstorm(doc: &J) -> J {
+    let threads = doc["threads"].as_u64().unwrap_or(4).max(2) as usize;
+    let iters = doc["iters"].as_u64().unwrap_or(2000) as usize;
+    let barrier = Arc::new(Barrier::new(threads + 1));
+    let stop = Arc::new(AtomicBool::new(false));
+    let mut hs = vec![];
+    for t in 0..threads {
+        let b = barrier.clone();
+        hs.push(std::thread::spawn(move || {
+            b.wait();
+            for i in 0..iters {
+                let name = format!("vh_s{}_{}", t, i % 50);
+                match t % 4 {
+                    0 => expression_engine::register_infix_op(&name, 100, expression_engine::InfixOpType::CALC, expression_engine::InfixOpAssociativity::LEFT, Arc::new(|_, _| Ok(Value::from(-1)))),
+                    1 => expression_engine::register_postfix_op(&name, Arc::new(|_| Ok(Value::from(-1)))),
+                    2 => expression_engine::register_prefix_op(&name, Arc::new(|_| Ok(Value::from(-1)))),
+                    _ => register_function(&name, Arc::new(|_| Ok(Value::from(-1)))),
+                }
+            }
+        }));
+    }
+    let (b, s) = (barrier.clone(), stop.clone());
+    let reader = std::thread::spawn(move || {
+        b.wait();
+        let mut n = 0u64;
+        let mut bad: Vec<String> = vec![];
+        while !s.load(Ordering::SeqCst) {
+            let r = guard(|| execute("1 + 2 * 3 - min(4 , 5) ++", Context::new()).map(|v| V::from_value(&v).key()).map_err(|e| e.to_string()));
+            if !matches!(&r, Ok(Ok(k)) if k == "n2") && bad.len() < 3 {
+                bad.push(format!("{:?}", r));
+            }
+            n += 1;
+        }
+        (n, bad)
+    });
+    let mut joined = 0;
+    for h in hs {
+        if h.join().is_ok() {
+            joined += 1;
+        }
+    }
+    stop.store(true, Ordering::SeqCst);
+    let (evals, bad) = reader.join().unwrap_or((0, vec!["reader died".into()]));
+    // every thread's last registrations are in effect
+    let mut lost = vec![];
+    for t in 0..threads {
+        for i in 0..50.min(iters) {
+            let name = format!("vh_s{}_{}", t, i);
+            let text = match t % 4 {
+                0 => format!("5 {} 6", name),
+                1 => format!("5 {}", name),
+                2 => format!("{} 5", name),
+                _ => format!("{}(5)", name),
+            };
+            let r = guard(|| execute(&text, Context::new()).map(|v| V::from_value(&v).key()).map_err(|e| e.to_string()));
+            if !matches!(&r, Ok(Ok(k)) if k == "n-1") && lost.len() < 5 {
+                lost.push(json!({"program": text, "result": format!("{:?}", r)}));
+            }
+        }
+    }
+    json!({"joined": joined, "threads": threads, "reader_evaluations": evals, "reader_anomalies": bad, "lost": lost})
+}
+
 /// first registrations of fresh word operators while other threads are already parsing programs
 /// that spell them: a parse that STARTS after register_* has returned must read the operator
 fn worker_freshrace(doc: &J) -> J {
@@ -484,6 +551,7 @@ pub fn worker() -> i32 {
         "held" => worker_held(&doc),
         "race" => worker_race(&doc),
         "freshrace" => worker_freshrace(&doc),
+        "regstorm" => worker_regstorm(&doc),
         _ => worker_regrace(&doc),
     };
     println!("{}", out);
@@ -630,6 +698,26 @@ fn run_child_json(scenario: &J, env: &Env, st: &mut Stats) -> Result<J, Failure>
     }
 }
 
+/// concurrent registrations of all four kinds
+pub fn run_regstorm(threads: usize, iters: u64, env: &Env, st: &mut Stats) -> CaseResult {
+    let scenario = json!({"mode": "regstorm", "threads": threads, "iters": iters});
+    st.eval();
+    st.hist("regstorm");
+    st.nontrivial(&format!("regstorm:{}", threads));
+    let doc = run_child_json(&scenario, env, st)?;
+    st.sample(|| json!({"scenario": scenario, "observed": doc}));
+    if doc["joined"].as_u64() != Some(threads as u64) {
+        return Err(Failure::new("panic:regstorm", format!("a registering thread died: {}", doc), scenario));
+    }
+    if let Some(a) = doc["reader_anomalies"].as_array().and_then(|a| a.first()) {
+        return Err(Failure::new("not-sequential:regstorm", format!("while {} threads were registering fresh names, an evaluation of `1 + 2 * 3 - min(4 , 5) ++` gave {}", threads, a), scenario));
+    }
+    if let Some(l) = doc["lost"].as_array().and_then(|a| a.first()) {
+        return Err(Failure::new("lost-registration:regstorm", format!("after {} threads had registered fresh names concurrently, `{}` evaluates to {}", threads, l["program"].as_str().unwrap_or(""), l["result"].as_str().unwrap_or("")), scenario));
+    }
+    Ok(())
+}
+
 /// fresh word operators are registered while other threads already parse programs spelling them
 pub fn run_freshrace(kind: &str, readers: usize, words: u64, env: &Env, st: &mut Stats) -> CaseResult {
     let scenario = json!({"mode": "freshrace", "kind": kind, "readers": readers, "words": words});
@@ -723,6 +811,19 @@ fn handler_ids(result: &str) -> Option<Vec<i64>> {
 }
 
 fn judge_reg_result(kind: &str, text_idx: usize, result: &str, scenario: &J) -> CaseResult {
+    if text_idx == 3 {
+        if result.starts_with("Err(") {
+            return Ok(());
+        }
+        if result.starts_with("PANIC") {
+            return Err(Failure::new(format!("panic:{}", panic_file(&result[6..])), format!("evaluation during re-registration panicked: {}", result), scenario.clone()));
+        }
+        return Err(Failure::new(
+            format!("accepted-malformed:during-re-registration:{}", kind),
+            format!("`{}` is malformed whenever `hi` is a registered {} operator (which it was before, during and after the evaluation), yet an evaluation that ran while `hi` was being re-registered returned {}", texts_for(kind)[3], kind, result),
+            scenario.clone(),
+        ));
+    }
     if text_idx == 2 {
         // `n += 1 ; <one use of hi with n>` on a fresh context with n = 0
         let ok = [1, 2].iter().any(|id| {
@@ -842,6 +943,10 @@ pub fn run_regrace(kind: &str, text_idx: usize, threads: usize, iters: u64, dire
         for r in &seen {
             let r = r.as_str().unwrap_or("");
             if let Some(last) = r.strip_prefix("FINAL ") {
+                if text_idx == 3 {
+                    judge_reg_result(kind, 3, last, &scenario)?;
+                    continue;
+                }
                 let want = doc["final_id"].as_i64().unwrap_or(0);
                 let ids = handler_ids(last).unwrap_or_default();
                 if ids.is_empty() || ids.iter().any(|i| *i != want) {
@@ -902,7 +1007,7 @@ fn fixed(env: &Env, st: &mut Stats) -> CaseResult {
     }
     // directed torn-registration scenario and a free race per registry kind
     for k in REG_KINDS {
-        for text_idx in 0..3 {
+        for text_idx in 0..4 {
             i += 1;
             if env.mine(i) && k != "infix-precedence" && text_idx < 2 {
                 let r = run_regrace(k, text_idx, 1, 0, true, env, st);
@@ -913,6 +1018,13 @@ fn fixed(env: &Env, st: &mut Stats) -> CaseResult {
                 let r = run_regrace(k, text_idx, 6, env.tier.pick(20_000, 200_000), false, env, st);
                 tolerate_known(env, st, r)?;
             }
+        }
+    }
+    // storms of concurrent registrations of all four kinds (lock-order problems between the tables)
+    for threads in [2usize, 4, 8] {
+        i += 1;
+        if env.mine(i) {
+            run_regstorm(threads, env.tier.pick(20_000, 200_000), env, st)?;
         }
     }
     // first registrations of fresh word operators racing with parses of the same spelling
@@ -943,7 +1055,7 @@ fn case(src: &mut Src, st: &mut Stats, env: &Env) -> CaseResult {
         }
         _ => {
             let k = *src.choose(&REG_KINDS);
-            let text_idx = src.pick(3);
+            let text_idx = src.pick(4);
             let threads = 2 + src.pick(7);
             run_regrace(k, text_idx, threads, 2000 + 2000 * src.pick(4) as u64, false, env, st)
         }
@@ -959,6 +1071,7 @@ pub fn replay(case: &J, st: &mut Stats, env: &Env) -> CaseResult {
             let a = CALLS.iter().find(|c| Some(**c) == case["a"].as_str()).copied().unwrap_or("parse:1+2");
             run_held(a, case["stage"].as_u64().unwrap_or(1), &refs, env, st)
         }
+        "regstorm" => run_regstorm(case["threads"].as_u64().unwrap_or(4) as usize, case["iters"].as_u64().unwrap_or(20_000), env, st),
         "freshrace" => run_freshrace(
             ["prefix", "infix", "postfix"].iter().find(|k| Some(**k) == case["kind"].as_str()).copied().unwrap_or("prefix"),
             case["readers"].as_u64().unwrap_or(2) as usize,
@@ -975,7 +1088,7 @@ pub fn replay(case: &J, st: &mut Stats, env: &Env) -> CaseResult {
             let k = REG_KINDS.iter().find(|c| Some(**c) == case["kind"].as_str()).copied().unwrap_or("infix");
             run_regrace(
                 k,
-                case["text"].as_u64().unwrap_or(0) as usize % 3,
+                case["text"].as_u64().unwrap_or(0) as usize % 4,
                 case["threads"].as_u64().unwrap_or(4) as usize,
                 case["iters"].as_u64().unwrap_or(2000),
                 case["directed"].as_bool().unwrap_or(false),
